@@ -755,3 +755,81 @@ Proof.
   all: try (rewrite <- H2 in H1; injection H1 as ->; reflexivity).
   all: try (rewrite <- H2 in H1; discriminate).
 Qed.
+
+(* ---------- every nesting of constructor calls yields a well-formed tree ---------- *)
+Section BexpInd.
+  Variable P : bexp -> Prop.
+  Hypothesis Hnew : forall c m w, P (BNew c m w).
+  Hypothesis Herrs : forall e ks,
+      Forall (fun kb => P (snd kb)) (match ks with Some l => l | None => [] end) -> P (BErrs e ks).
+  Hypothesis Hww : forall e w ks,
+      Forall (fun kb => P (snd kb)) (match ks with Some l => l | None => [] end) -> P (BWW e w ks).
+  Fixpoint bexp_ind' (b : bexp) : P b :=
+    let go := fix go (l : list (string * bexp)) : Forall (fun kb => P (snd kb)) l :=
+                match l with
+                | [] => Forall_nil _
+                | kb :: r => Forall_cons kb (bexp_ind' (snd kb)) (go r)
+                end in
+    match b with
+    | BNew c m w => Hnew c m w
+    | BErrs e ks =>
+        Herrs e ks (match ks as k0 return Forall (fun kb => P (snd kb)) (match k0 with Some l => l | None => [] end) with
+                    | None => Forall_nil _ | Some l => go l end)
+    | BWW e w ks =>
+        Hww e w ks (match ks as k0 return Forall (fun kb => P (snd kb)) (match k0 with Some l => l | None => [] end) with
+                    | None => Forall_nil _ | Some l => go l end)
+    end.
+End BexpInd.
+
+Definition built_ok (n : nat) (b : bexp) : Prop :=
+  forall h t h', n <= length h -> bexp_ok n b = true -> build b h = (t, h') ->
+                 wf h' t = true /\ agree (length h) h h'.
+
+Lemma build_list_ok n (l : list (string * bexp)) :
+  Forall (fun kb => built_ok n (snd kb)) l ->
+  forall h l' h', n <= length h -> forallb (fun kb => bexp_ok n (snd kb)) l = true ->
+    build_list build l h = (l', h') ->
+    forallb (fun kc => wfn (length h') (snd kc)) l' = true /\ agree (length h) h h'.
+Proof.
+  induction l as [|[k b] r IH]; intros HF h l' h' Hn Hok E; cbn [build_list] in E.
+  - injection E as <- <-. split; [reflexivity|apply agree_refl].
+  - inversion HF as [|? ? Hb Hr]; subst. cbn [snd] in Hb. cbn [forallb snd] in Hok.
+    apply andb_true_iff in Hok as [Hokb Hokr].
+    destruct (build b h) as [t h1] eqn:Eb. destruct (build_list build r h1) as [r' h2] eqn:Er.
+    injection E as <- <-.
+    destruct (Hb h t h1 Hn Hokb Eb) as [Wt A1]. pose proof (agree_len _ _ _ A1) as L1.
+    destruct (IH Hr h1 r' h2 ltac:(lia) Hokr Er) as [Wr A2]. pose proof (agree_len _ _ _ A2) as L2.
+    split.
+    + cbn [forallb snd]. rewrite Wr, andb_true_r. eapply wfn_mono; [|exact Wt]. exact L2.
+    + eapply agree_trans; [exact A1|]. eapply agree_le; [|exact A2]. exact L1.
+Qed.
+
+Lemma build_ok n b : built_ok n b.
+Proof.
+  induction b as [c m w|e ks IH|e w ks IH] using bexp_ind'; intros h t h' Hn Hok E; cbn [build] in E.
+  - pose proof (new_validation_error_spec c m w h) as S. rewrite E in S. destruct S as [W [A _]]. now split.
+  - cbn [bexp_ok] in Hok. apply andb_true_iff in Hok as [He Hk].
+    assert (K : exists ks' h1, new_validation_errors e ks' h1 = (t, h') /\
+                               kids_wf (length h1) ks' = true /\ agree (length h) h h1).
+    { destruct ks as [l|].
+      - destruct (build_list build l h) as [l' h1] eqn:El.
+        exists (Some l'), h1. split; [exact E|]. exact (build_list_ok n l IH h l' h1 Hn Hk El).
+      - exists None, h. split; [exact E|]. split; [reflexivity|apply agree_refl]. }
+    destruct K as [ks' [h1 [E' [Wk A1]]]]. pose proof (agree_len _ _ _ A1) as L1.
+    assert (He1 : ref_ok (length h1) e = true) by (eapply ref_ok_mono; [|exact He]; lia).
+    pose proof (new_validation_errors_spec e ks' h1 He1 Wk) as S. rewrite E' in S. destruct S as [W [A2 _]].
+    split; [exact W|]. eapply agree_trans; [exact A1|]. eapply agree_le; [|exact A2]. exact L1.
+  - cbn [bexp_ok] in Hok. apply andb_true_iff in Hok as [Hew Hk]. apply andb_true_iff in Hew as [He Hw].
+    assert (K : exists ks' h1, new_validation_errors_with_warnings e w ks' h1 = (t, h') /\
+                               kids_wf (length h1) ks' = true /\ agree (length h) h h1).
+    { destruct ks as [l|].
+      - destruct (build_list build l h) as [l' h1] eqn:El.
+        exists (Some l'), h1. split; [exact E|]. exact (build_list_ok n l IH h l' h1 Hn Hk El).
+      - exists None, h. split; [exact E|]. split; [reflexivity|apply agree_refl]. }
+    destruct K as [ks' [h1 [E' [Wk A1]]]]. pose proof (agree_len _ _ _ A1) as L1.
+    assert (He1 : ref_ok (length h1) e = true) by (eapply ref_ok_mono; [|exact He]; lia).
+    assert (Hw1 : ref_ok (length h1) w = true) by (eapply ref_ok_mono; [|exact Hw]; lia).
+    pose proof (new_validation_errors_with_warnings_spec e w ks' h1 He1 Hw1 Wk) as S. rewrite E' in S.
+    destruct S as [W [A2 _]].
+    split; [exact W|]. eapply agree_trans; [exact A1|]. eapply agree_le; [|exact A2]. exact L1.
+Qed.
